@@ -440,7 +440,14 @@ func prepareCall(fr *frame, call *ssa.CallCommon) (fn value, args []value) {
 		// Interface method invocation.
 		recv := v.(iface)
 		if recv.t == nil {
-			panic("method invoked on nil interface")
+			panic(targetRuntimeError("runtime error: invalid memory address or nil pointer dereference (method " + call.Method.Name() + " invoked on nil interface)"))
+		}
+		if _, isStub := recv.v.(stubObj); isStub {
+			fn = &stubMethod{sig: call.Method.Type().(*types.Signature), name: call.Method.FullName()}
+			for _, arg := range call.Args {
+				args = append(args, fr.get(arg))
+			}
+			return
 		}
 		if f := lookupMethod(fr.i, recv.t, call.Method); f == nil {
 			// Unreachable in well-typed programs.
@@ -470,6 +477,11 @@ func call(i *interpreter, caller *frame, callpos token.Pos, fn value, args []val
 		return callSSA(i, caller, callpos, fn.Fn, args, fn.Env)
 	case *ssa.Builtin:
 		return callBuiltin(caller, fn, args)
+	case *stubMethod:
+		if X != nil && X.res != nil {
+			X.res.stubSet[fn.name] = true
+		}
+		return stubResults(fn.sig, args)
 	}
 	panic(fmt.Sprintf("cannot call %T", fn))
 }
@@ -570,7 +582,7 @@ func callSSA(i *interpreter, caller *frame, callpos token.Pos, fn *ssa.Function,
 			if X != nil && X.res != nil {
 				X.res.stubSet[name] = true
 			}
-			return zeroResults(fn)
+			return stubResults(fn.Signature, args)
 		}
 		if fn.Blocks == nil {
 			panic(engineErr("no code for function: " + name))
